@@ -60,6 +60,14 @@ def family(mode, n, rng):
                         [["sleep", 0]] if i % 7 == 1 else
                         [["cancel", i + 3]] if i % 7 == 2 else
                         [["sched", ["now"], 20000 + i, []]] if i % 7 == 3 else []]] for i in range(n)]
+    if mode == "flat_cancel_idle":
+        # n actions sharing ONE due time, then -- the scheduler still idle -- the disposables of some of them
+        # (never the first one scheduled) are disposed from the top level: exactly the others must run
+        h = [["do", ["sched", ["abs", 3 * U], i, []]] for i in range(n)]
+        for j in sorted({1, n // 2, n - 1} - {0}):
+            if 0 < j < n:
+                h.append(["do", ["cancel", j]])
+        return h
     if mode == "two_instants":
         return ([["do", ["sched", ["abs", U], i, []]] for i in range(n)] +
                 [["do", ["sched", ["abs", 2 * U], 5000 + i, []]] for i in range(n)])
@@ -68,19 +76,21 @@ def family(mode, n, rng):
 
 def gen_cases(tier, rng):
     ns = [0, 1, 2, 50, 99, 100, 101, 102, 103, 104, 150, 201, 202, 203, 204, 205, 250, 303, 304, 400]
-    modes = ["flat", "flat_abs", "chain", "chain_rel0", "mixed", "two_instants", "chain_past", "flat_past"]
+    modes = ["flat", "flat_abs", "chain", "chain_rel0", "mixed", "two_instants", "chain_past", "flat_past",
+             "flat_cancel_idle"]
     if tier == "quick":
         ns = [0, 1, 100, 101, 102, 103, 204, 205, 400]
+    small = [2, 3, 4, 7]
     out = []
     for world in vt.WORLDS:
         for mode in modes:
-            for n in ns:
+            for n in (ns + small if mode == "flat_cancel_idle" else ns):
                 if mode == "two_instants" and n > 250:
                     continue
                 # start_test = TestScheduler.start() itself (its own create/subscribe/dispose items at
                 # 100 s / 200 s / 1000 s, then the inherited run loop)
                 for drive in ("start", "advto") + (("start_test",) if world == "test" else ()):
-                    if tier == "quick" and drive == "advto" and n not in (1, 102, 204):
+                    if tier == "quick" and drive == "advto" and n not in (1, 102, 204) + tuple(small):
                         continue
                     if tier == "quick" and drive == "start_test" and n not in (101, 102, 205):
                         continue
@@ -89,9 +99,15 @@ def gen_cases(tier, rng):
                     h = family(mode, n, rng)
                     h.append({"start": ["start"], "advto": ["advto", 5 * U], "start_test": ["start_test"]}[drive])
                     # a drained scheduler is started again
+                    if mode == "flat_cancel_idle":
+                        # ... with a same-instant batch of which the second is cancelled while the scheduler is idle
+                        nh = n + (4 if drive == "start_test" else 0)       # TestScheduler.start() schedules its own items
+                        if drive != "start_test":
+                            h += [["do", ["sched", ["now"], 99997, []]], ["do", ["sched", ["now"], 99998, []]],
+                                  ["do", ["cancel", nh + 1]]]
                     h += [["do", ["sched", ["now"], 99999, []]],
                           {"start": ["start"], "advto": ["advby", U], "start_test": ["start_test"]}[drive]]
-                    out.append((world, rng.choice([0, 0, U, 12345]) if mode != "flat_abs" else 0, h,
+                    out.append((world, rng.choice([0, 0, U, 12345]) if mode not in ("flat_abs", "flat_cancel_idle") else 0, h,
                                 f"{mode}/{drive}", n))
     nr = 40 if tier == "quick" else 400
     for _ in range(nr):
@@ -159,8 +175,10 @@ def run(chk):
         cancelled = {e[1] for e in trace if e[0] == "cancel"}
         ran = [e[1] for e in trace if e[0] == "run"]
         if not any(e[0] == "hang" for e in trace) and fam != "random":
-            if sorted(ran) != sorted(sched - cancelled) and not (sched & cancelled):
-                bad.append(("not-every-action-ran", f"scheduled {len(sched)} ran {len(ran)}"))
+            idle_cancels = fam.startswith("flat_cancel_idle")     # every cancel precedes the run of its item
+            if sorted(ran) != sorted(sched - cancelled) and (idle_cancels or not (sched & cancelled)):
+                bad.append(("not-every-action-ran", f"scheduled {len(sched)} cancelled {len(sched & cancelled)} "
+                                                    f"ran {len(ran)}: missing {sorted(sched - cancelled - set(ran))[:5]}"))
             if len(ran) != len(set(ran)):
                 bad.append(("action-ran-twice", ""))
         for sig, detail in bad:
@@ -224,8 +242,10 @@ def replay(chk, path):
     cancelled = {e[1] for e in trace if e[0] == "cancel"}
     ran = [e[1] for e in trace if e[0] == "run"]
     if not any(e[0] == "hang" for e in trace) and d.get("family") != "random":
-        if sorted(ran) != sorted(sched - cancelled) and not (sched & cancelled):
-            bad.append(("not-every-action-ran", f"scheduled {len(sched)} ran {len(ran)}"))
+        idle_cancels = str(d.get("family")).startswith("flat_cancel_idle")
+        if sorted(ran) != sorted(sched - cancelled) and (idle_cancels or not (sched & cancelled)):
+            bad.append(("not-every-action-ran", f"scheduled {len(sched)} cancelled {len(sched & cancelled)} "
+                                                f"ran {len(ran)}: missing {sorted(sched - cancelled - set(ran))[:5]}"))
         if len(ran) != len(set(ran)):
             bad.append(("action-ran-twice", ""))
     for sig, detail in bad:
